@@ -50,7 +50,7 @@ func (n *AlertNode) Build(a *pipeline.AlertNode) (ast.Node, error) {
 		for i, t := range in.EqualTags {
 			args[i+1] = t
 		}
-		n.Dot("inhibit", args...)
+		n.DotZeroValueOK("inhibit", args...)
 	}
 
 	if a.IsStateChangesOnly {
@@ -78,7 +78,7 @@ func (n *AlertNode) Build(a *pipeline.AlertNode) (ast.Node, error) {
 		}
 		sort.Strings(headers)
 		for _, k := range headers {
-			n.Dot("header", k, h.Headers[k])
+			n.DotZeroValueOK("header", k, h.Headers[k])
 		}
 	}
 
@@ -157,7 +157,7 @@ func (n *AlertNode) Build(a *pipeline.AlertNode) (ast.Node, error) {
 		}
 		sort.Strings(keys)
 		for _, k := range keys {
-			n.Dot("metadata", k, h.MetadataMap[k])
+			n.DotZeroValueOK("metadata", k, h.MetadataMap[k])
 		}
 	}
 
@@ -177,7 +177,7 @@ func (n *AlertNode) Build(a *pipeline.AlertNode) (ast.Node, error) {
 		}
 		sort.Strings(keys)
 		for _, k := range keys {
-			n.Dot("additionalInfo", k, h.AdditionalInfoMap[k])
+			n.DotZeroValueOK("additionalInfo", k, h.AdditionalInfoMap[k])
 		}
 	}
 
@@ -195,7 +195,7 @@ func (n *AlertNode) Build(a *pipeline.AlertNode) (ast.Node, error) {
 		}
 		sort.Strings(keys)
 		for _, k := range keys {
-			n.Dot("attribute", k, h.Attributes[k])
+			n.DotZeroValueOK("attribute", k, h.Attributes[k])
 		}
 	}
 
@@ -249,7 +249,7 @@ func (n *AlertNode) Build(a *pipeline.AlertNode) (ast.Node, error) {
 		}
 		sort.Strings(attributes)
 		for _, k := range attributes {
-			n.Dot("attribute", k, h.Attributes[k])
+			n.DotZeroValueOK("attribute", k, h.Attributes[k])
 		}
 	}
 
@@ -278,7 +278,7 @@ func (n *AlertNode) Build(a *pipeline.AlertNode) (ast.Node, error) {
 	for _, h := range a.SNMPTrapHandlers {
 		n.DotRemoveZeroValue("snmpTrap", h.TrapOid)
 		for _, d := range h.DataList {
-			n.Dot("data", d.Oid, d.Type, d.Value)
+			n.DotZeroValueOK("data", d.Oid, d.Type, d.Value)
 		}
 	}
 
@@ -304,7 +304,7 @@ func (n *AlertNode) Build(a *pipeline.AlertNode) (ast.Node, error) {
 		}
 		sort.Strings(keys)
 		for _, k := range keys {
-			n.Dot("customField", k, h.CustomFieldsMap[k])
+			n.DotZeroValueOK("customField", k, h.CustomFieldsMap[k])
 		}
 	}
 	for _, h := range a.TeamsHandlers {
